@@ -3,7 +3,7 @@
    kind, form and value.  Case analysis over the kinds, arithmetic over all Z,
    all spec_float, all strings. *)
 From Coq Require Import ZArith Bool String Ascii List Lia Floats.SpecFloat.
-From Verif Require Import Util Ints Strconv Floats Assign AssignSpec AssignText.
+From Verif Require Import Util Ints Strconv Floats AssignVal Assign AssignSpec AssignText.
 Import ListNotations.
 Local Open Scope Z_scope.
 
